@@ -125,14 +125,14 @@ func alive(view viewFn, c int) bool {
 func present(view viewFn, k mkey) bool { _, ok := view(k); return ok }
 
 // neoTouch: first touch of a NEO account in the persisting block (newest first).
-func neoTouch(view viewFn, a int) []wnode {
+func neoTouch(view viewFn, a, tag int) []wnode {
 	if present(view, mkey{neoHTab, a}) {
 		return nil
 	}
 	r, _ := view(mkey{rewardTab, a})
 	var ws []wnode
 	if r != 0 {
-		ws = append(ws, wnode{k: mkey{pendTab, a}, v: r})
+		ws = append(ws, wnode{k: mkey{pendTab, 100*tag + a}, v: r})
 	}
 	return append(ws, wnode{k: mkey{neoHTab, a}, v: 1})
 }
@@ -272,7 +272,7 @@ func natStep(n *Node, self int, f flags, view viewFn) *natOut {
 		if bal < amt {
 			return &natOut{cb: -1}
 		}
-		touchF := neoTouch(view, self)
+		touchF := neoTouch(view, self, n.Nat.Tag)
 		if self == to || amt == 0 {
 			return &natOut{ws: touchF, evs: []event{{neoTab, amt}}, cb: cb}
 		}
@@ -298,7 +298,7 @@ func natStep(n *Node, self int, f flags, view viewFn) *natOut {
 			if present(view, mkey{voteTab, to}) {
 				toW = append(toW, wnode{k: mkey{votersTab, 0}, v: voters + amt}, wnode{k: mkey{candTab, 0}, v: cand + amt})
 			}
-			toW = append(toW, neoTouch(view, to)...)
+			toW = append(toW, neoTouch(view, to, n.Nat.Tag)...)
 		}
 		return &natOut{ws: cat(toW, balF, votesF, touchF), evs: []event{{neoTab, amt}}, cb: cb}
 	case natVoteP:
@@ -331,7 +331,7 @@ func natStep(n *Node, self int, f flags, view viewFn) *natOut {
 		} else {
 			wVote = []wnode{{k: mkey{voteTab, self}, del: true}}
 		}
-		return &natOut{ws: cat(wVote, wCand, neoTouch(view, self), wVoters), evs: []event{{voteTab, self}}, cb: -1}
+		return &natOut{ws: cat(wVote, wCand, neoTouch(view, self, n.Nat.Tag), wVoters), evs: []event{{voteTab, self}}, cb: -1}
 	case natRevoke:
 		if !(f.r && f.w && f.n) {
 			return nil
@@ -351,7 +351,7 @@ func natStep(n *Node, self int, f flags, view viewFn) *natOut {
 			wVoters = []wnode{{k: mkey{votersTab, 0}, v: voters - bal}}
 			wCand = []wnode{{k: mkey{candTab, 0}, v: cand - bal}}
 		}
-		return &natOut{ws: cat([]wnode{{k: mkey{voteTab, a}, del: true}}, wCand, neoTouch(view, a), wVoters), evs: []event{{voteTab, a}}, cb: -1}
+		return &natOut{ws: cat([]wnode{{k: mkey{voteTab, a}, del: true}}, wCand, neoTouch(view, a, n.Nat.Tag), wVoters), evs: []event{{voteTab, a}}, cb: -1}
 	case natMint:
 		if !(f.r && f.w && f.n) {
 			return nil
@@ -360,12 +360,12 @@ func natStep(n *Node, self int, f flags, view viewFn) *natOut {
 		if a == 99 {
 			a = self
 		}
-		r, ok := view(mkey{pendTab, a})
+		r, ok := view(mkey{pendTab, 100*n.Nat.Tag + a})
 		if !ok {
 			return &natOut{cb: -1}
 		}
 		g, _ := view(mkey{gasTab, a})
-		out := &natOut{ws: []wnode{{k: mkey{gasTab, a}, v: g + r}, {k: mkey{pendTab, a}, del: true}}, evs: []event{{gasTab, r}}, cb: -1}
+		out := &natOut{ws: []wnode{{k: mkey{gasTab, a}, v: g + r}, {k: mkey{pendTab, 100*n.Nat.Tag + a}, del: true}}, evs: []event{{gasTab, r}}, cb: -1}
 		if alive(view, a) {
 			out.cb = a
 		}
@@ -381,28 +381,22 @@ func applyWrites(l *wnode, ws []wnode) *wnode {
 	return l
 }
 
-// expand desugars the NEO methods into the native steps the model knows: the method proper, then
-// the deferred GAS minting (GAS.MintDeferrable with onNEP17Payment(null, amount, null)) for the
-// sender and for the receiver. Exactly what Driver/Exec.lean does with `E` and `O`.
-func expand(n *Node) []*Node {
+// expand gives the NEO methods (and blockAccount, which revokes votes) the shape the model knows:
+// the method proper, and — inside the same native frame — the deferred GAS minting
+// (GAS.MintDeferrable with onNEP17Payment(null, amount, null)) for the sender and the receiver.
+// Exactly what Driver/Exec.lean builds for `E`, `O` and `B`.
+func expand(n *Node) *Node {
+	inner := func(op NatOp) *Node { op.Tag = n.Nat.Tag; return &Node{Op: nNative, Fl: n.Fl, Nat: &op, Inner: true} }
 	switch n.Nat.Kind {
 	case natNeoTransfer:
-		return []*Node{
-			{Op: nNative, Fl: n.Fl, Nat: &NatOp{Kind: natNeoXferP, To: n.Nat.To, Amt: n.Nat.Amt, HasCb: n.Nat.HasCb, Cb: n.Nat.Cb}},
-			{Op: nNative, Fl: n.Fl, Nat: &NatOp{Kind: natMint, Val: 99}},
-			{Op: nNative, Fl: n.Fl, Nat: &NatOp{Kind: natMint, Val: n.Nat.To}},
-		}
+		return &Node{Op: nNative, Fl: n.Fl, Nat: &NatOp{Kind: natNeoXferP, To: n.Nat.To, Amt: n.Nat.Amt, HasCb: n.Nat.HasCb, Cb: n.Nat.Cb, Tag: n.Nat.Tag},
+			Rest: []*Node{inner(NatOp{Kind: natMint, Val: 99}), inner(NatOp{Kind: natMint, Val: n.Nat.To})}}
 	case natBlock:
-		return []*Node{
-			{Op: nNative, Fl: n.Fl, Nat: &NatOp{Kind: natRevoke, Val: n.Nat.Val}},
-			{Op: nNative, Fl: n.Fl, Nat: &NatOp{Kind: natMint, Val: n.Nat.Val}},
-			{Op: nNative, Fl: n.Fl, Nat: &NatOp{Kind: natBlockP, Val: n.Nat.Val}},
-		}
+		return &Node{Op: nNative, Fl: n.Fl, Nat: &NatOp{Kind: natRevoke, Val: n.Nat.Val, Tag: n.Nat.Tag},
+			Rest: []*Node{inner(NatOp{Kind: natMint, Val: n.Nat.Val}), inner(NatOp{Kind: natBlockP, Val: n.Nat.Val})}}
 	case natVote:
-		return []*Node{
-			{Op: nNative, Fl: n.Fl, Nat: &NatOp{Kind: natVoteP, Val: n.Nat.Val}},
-			{Op: nNative, Fl: n.Fl, Nat: &NatOp{Kind: natMint, Val: 99}},
-		}
+		return &Node{Op: nNative, Fl: n.Fl, Nat: &NatOp{Kind: natVoteP, Val: n.Nat.Val, Tag: n.Nat.Tag},
+			Rest: []*Node{inner(NatOp{Kind: natMint, Val: 99})}}
 	}
 	return nil
 }
@@ -537,29 +531,36 @@ func spNode(n *Node, c int, f flags, s sst) (resKind, sst) {
 		return rFault, s
 	case nNative:
 		if ex := expand(n); ex != nil {
-			return spList(ex, c, f, s)
+			return spNode(ex, c, f, s)
 		}
-		if !(f.r && f.c) {
+		if !(n.Inner || (f.r && f.c)) {
 			return rFault, s
 		}
-		f1 := f.and(flagsOf(n.Fl))
+		f1 := f
+		if !n.Inner {
+			f1 = f.and(flagsOf(n.Fl))
+		}
 		out := natStep(n, c, f1, s.st.get)
 		if out == nil {
 			return rFault, s
 		}
 		s.st = applyWrites(s.st, out.ws)
 		s.ev = evAppend(s.ev, out.evs...)
-		if out.cb < 0 {
-			return rNorm, s
+		if out.cb >= 0 {
+			if out.cbAbort {
+				return rFault, s
+			}
+			k, s2 := spList(cbBody(n), out.cb, f1, s)
+			if k != rNorm {
+				return rFault, s2
+			}
+			s = s2
 		}
-		if out.cbAbort {
-			return rFault, s
+		if k, s3 := spList(n.Rest, c, f1, s); k != rNorm {
+			return rFault, s3
+		} else {
+			return rNorm, s3
 		}
-		k, s2 := spList(cbBody(n), out.cb, f1, s)
-		if k == rNorm {
-			return rNorm, s2
-		}
-		return rFault, s2
 	}
 	panic("bad node")
 }
@@ -795,13 +796,16 @@ func imNode(n *Node, x ictx, s ist) (resKind, ist) {
 		return rFault, s
 	case nNative:
 		if ex := expand(n); ex != nil {
-			return imList(ex, x, s)
+			return imNode(ex, x, s)
 		}
-		if !(x.f.r && x.f.c) {
+		if !(n.Inner || (x.f.r && x.f.c)) {
 			return rFault, s
 		}
-		f1 := x.f.and(flagsOf(n.Fl))
-		wrapped := x.inTry && f1.mut()
+		f1 := x.f
+		if !n.Inner {
+			f1 = x.f.and(flagsOf(n.Fl))
+		}
+		wrapped := !n.Inner && x.inTry && f1.mut()
 		base := len(s.ev)
 		s0 := s
 		if wrapped {
@@ -821,27 +825,32 @@ func imNode(n *Node, x ictx, s ist) (resKind, ist) {
 				cov["dyn:native-write-unwrapped"]++
 			}
 		}
-		if out.cb < 0 {
-			if wrapped && s1.exc {
-				devFired = true
+		if out.cb >= 0 {
+			if out.cbAbort {
+				return rFault, s1
 			}
-			return rNorm, s1.unload(wrapped, base)
+			k, s2 := imList(cbBody(n), ictx{out.cb, f1, false, x.h}, s1)
+			if k == rThrown {
+				cov["dyn:payment-callback-threw"]++
+			}
+			if k != rNorm {
+				return rFault, s2
+			}
+			if s2.exc { // callFromNative && !commit
+				devFired = true
+				return rFault, s2
+			}
+			cov["dyn:payment-callback-returned"]++
+			s1 = s2
 		}
-		if out.cbAbort {
-			return rFault, s1
+		k, s3 := imList(n.Rest, ictx{x.c, f1, false, x.h}, s1)
+		if k != rNorm {
+			return rFault, s3
 		}
-		k, s2 := imList(cbBody(n), ictx{out.cb, f1, false, x.h}, s1)
-		if k == rNorm && s2.exc {
+		if wrapped && s3.exc {
 			devFired = true
 		}
-		if k == rNorm && !s2.exc {
-			cov["dyn:payment-callback-returned"]++
-			return rNorm, s2.unload(wrapped, base)
-		}
-		if k == rThrown {
-			cov["dyn:payment-callback-threw"]++
-		}
-		return rFault, s2
+		return rNorm, s3.unload(wrapped, base)
 	}
 	panic("bad node")
 }
